@@ -125,6 +125,8 @@ func profileFor(prop string) profile {
 	case "C18":
 		p.faultFree, p.pCB, p.pReent, p.senders, p.sendsMax = 0.5, 0.7, 0.5, 3, 10
 		p.hot = []string{"socket.flush", "socket.onDrain", "socket.sendPacket", "polling.send", "polling.write", "websocket.send", "socket.MaybeUpgrade", "socket.OnClose"}
+	case "C05":
+		p.faultFree, p.pAppClose, p.pServerClose, p.pUpgrade, p.maxClients = 0.2, 0.6, 0.1, 0.4, 3
 	case "C09":
 		p.faultFree = 0
 	}
@@ -161,6 +163,14 @@ func genOpts(g *G, p *profile) OptSpec {
 	} else if g.p(0.5) {
 		o.PingIntervalMs = g.pick(2000, 5000, 25000, 30000)
 		o.PingTimeoutMs = g.pick(1000, 5000, 20000)
+	}
+	if o.PingIntervalMs > 0 && g.p(0.2) {
+		// only one of the two heartbeat settings is configured, the other keeps its default
+		if g.p(0.5) {
+			o.PingTimeoutMs = 0
+		} else {
+			o.PingIntervalMs = 0
+		}
 	}
 	if g.p(0.5) {
 		o.UpgradeTimeoutMs = g.pick(100, 300, 1000, 10000)
@@ -693,7 +703,7 @@ func GenSession(prop string, seed uint64, thorough bool) *Scenario {
 	}
 	// C11: a message listener that takes time keeps its data request in flight across virtual instants; an
 	// overlapping data request, an application close or a client abort is then aimed into that window
-	if prop == "C11" && !sc.FaultFree && g.p(0.4) {
+	if !sc.FaultFree && ((prop == "C11" && g.p(0.4)) || (prop == "C17" && g.p(0.3))) {
 		for ci := range sc.Clients {
 			c := &sc.Clients[ci]
 			if c.Transport != "polling" || c.Upgrade != "" || len(c.Cand) > 0 || len(c.Raw) > 0 || !g.p(0.7) {
